@@ -38,6 +38,7 @@ def gen(tier: str, seed: int) -> list[Case]:
     n = 24 if tier == "quick" else 1600
     cases = []
     for i in range(n):
+        cfg.local_foreign_lower = i % 2 == 0  # lower-case class names only without naming conversion (recorded finding)
         pkg = pg.random_pkg(rng, cfg)
         counts = pg.assign_cross_refs(rng, pkg, allowed, 0.5)
         add_public_inheritance(rng, pkg)
